@@ -316,6 +316,20 @@ def check(repo: Repo, run: Run) -> None:
         k = class_of_first_record_ne(N(body))
         if k is not None:
             post.append((k, pipeline.conjuncts(s.cond), s))
+            continue
+        # one merged post-filter `class(first record) not in HELPERS` over the very list of helper classes that was added to
+        # the event filter: every helper class is removed exactly when it was added (the stage's own guard, the list being
+        # non-empty, holds whenever one of its elements was added)
+        nb_ = N(body)
+        want_l = T("bin", (">>", A(T("sub", (A(X, "ktraces"), const(0))), "eventid"), const(24)))
+        if nb_.op == "cmp" and nb_.a[0] == "not in" and nb_.a[1] == want_l:
+            try:
+                b_, adds_ = listset(nb_.a[2])
+            except AnalysisError:
+                b_, adds_ = T("unknown", ("list",)), []
+            if b_ is None and adds_:
+                for e_, cd_ in adds_:
+                    post.append((e_, pipeline.conjuncts(cd_), s))
     run.floor("R2", "helper classes added by traces()", len(additions), 2)
     for k, cj, how in additions:
         m = [p for p in post if p[0] == k]
